@@ -2,6 +2,9 @@
 #include <occa/internal/modes/serial/device.hpp>
 #include <occa/internal/modes/serial/memory.hpp>
 #include <occa/internal/modes/serial/memoryPool.hpp>
+#ifdef LIBOCCA_OCCA_VERIF
+#include <occa/internal/utils/verif.hpp>
+#endif
 
 namespace occa {
 
@@ -11,10 +14,16 @@ namespace occa {
     alignment(128),
     reserved(0),
     buffer(nullptr) {
+#ifdef LIBOCCA_OCCA_VERIF
+    verif::created(verif::kMemoryPool, this);
+#endif
     verbose = properties_.get("verbose", false);
   }
 
   modeMemoryPool_t::~modeMemoryPool_t() {
+#ifdef LIBOCCA_OCCA_VERIF
+    verif::destroyed(verif::kMemoryPool, this);
+#endif
     // NULL all wrappers
     while (memoryPoolRing.head) {
       memoryPool *memPool = (memoryPool*) memoryPoolRing.head;
